@@ -202,6 +202,10 @@ def run(ctx):
         if "case" in r and "case" in r["case"]:
             cases = [dict(r["case"]["case"], id=0)]
     else:
+        # a closer that is slower than any plausible "give up waiting" bound: Close must still wait for it
+        for wdl in ([6500] if ctx.quick() else [6500, 12000, 31000]):
+            cases.append({"id": len(cases), "n": 3, "kinds": ["W", "F", "A"], "fails": [False, True, False],
+                          "shapes": ["P", "P", "P"], "procs": 0, "wdl_ms": wdl})
         for i in range(ngen):
             big = 50 if (ctx.quick() and i % 40 == 0) else maxn
             cases.append(gen_case(ctx.rng, len(cases), big))
